@@ -106,6 +106,11 @@ struct Array {
     }
 
     void operator+=(Array &&src) {
+        if (this == &src) {
+            // Nothing can be moved out of an array into itself.
+            return;
+        }
+
         if (Capacity() == 0) {
             setStorage(src.Storage());
             setSize(src.Size());
@@ -152,12 +157,20 @@ struct Array {
 
     void operator+=(Type_T &&item) {
         if (Size() == Capacity()) {
+            // The item can be one of this array's own: growing relocates it, so find it again afterwards.
+            const bool  own = ((&item >= First()) && (&item < (First() + Size())));
+            const SizeT at  = (own ? SizeT(&item - First()) : SizeT{0});
 #ifdef QENTEM_VERIF
             // verification hook (H1): grow by exactly one item
             resize(Capacity() + SizeT{1});
 #else
             resize((Capacity() | (Capacity() == 0)) * SizeT{2});
 #endif
+            if (own) {
+                Memory::Initialize((Storage() + Size()), Memory::Move(Storage()[at]));
+                ++index_;
+                return;
+            }
         }
 
         Memory::Initialize((Storage() + Size()), Memory::Move(item));
@@ -166,12 +179,20 @@ struct Array {
 
     inline void operator+=(const Type_T &item) {
         if (Size() == Capacity()) {
+            // The item can be one of this array's own: growing relocates it, so find it again afterwards.
+            const bool  own = ((&item >= First()) && (&item < (First() + Size())));
+            const SizeT at  = (own ? SizeT(&item - First()) : SizeT{0});
 #ifdef QENTEM_VERIF
             // verification hook (H1): grow by exactly one item
             resize(Capacity() + SizeT{1});
 #else
             resize((Capacity() | (Capacity() == 0)) * SizeT{2});
 #endif
+            if (own) {
+                Memory::Initialize((Storage() + Size()), static_cast<const Type_T &>(Storage()[at]));
+                ++index_;
+                return;
+            }
         }
 
         Memory::Initialize((Storage() + Size()), item);
